@@ -2213,6 +2213,109 @@ def record_written_in_one_piece(ctx, rid):
            detail="lines reach the file through Write::write of the complete text" if not bad else "write!/writeln! formats straight into the log file: one write(2) per fragment")
 
 
+# ------------------------------------------------------------------------------------------------
+# R12.13  REDO_CYCLES only ever grows
+
+def cycle_set_only_grows(ctx, rid):
+    ctx.rule(rid, "the only writer of REDO_CYCLES is cycles::add (which inserts): no other body sets the variable - taking an id *off* the inherited list (e.g. when a lock is handed over to redo-unlocked's second phase) lets a script below ask for the very target whose lock an ancestor still holds, and the request blocks for ever instead of being refused as a cycle")
+    prog = ctx.prog
+    writers = []
+    for b in prog.bodies.values():
+        ba = BA.of(b)
+        for i in ba.calls(r"std::env::(set_var|remove_var)|std::process::Command::(env|env_remove|env_clear)"):
+            t = b.blocks[i]["term"]
+            nm = None
+            for a in t["args"]:
+                c = op_const(a)
+                if c is not None and (c.get("str") == "REDO_CYCLES" or str(c.get("named", "")).endswith("ENV_CYCLES")):
+                    nm = "REDO_CYCLES"
+            if nm:
+                writers.append((b, i))
+    ctx.floor(rid, "writers of REDO_CYCLES", len(writers), 1)
+    bad = [(b, i) for (b, i) in writers if b.key != "cycles::add"]
+    ctx.ob(rid, "REDO_CYCLES|written-only-by-cycles::add", not bad, where=ctx.where(bad[0][0], bad[0][1]) if bad else "",
+           detail="cycles::add is the only writer" if not bad else "%s rewrites REDO_CYCLES" % bad[0][0].key)
+
+
+# ------------------------------------------------------------------------------------------------
+# R11.14 / R2.11  what redo has just built is redo's output again
+
+def successful_build_clears_override(ctx, rid):
+    ctx.rule(rid, "record_new_state, success side: on every path from the installed output to the save of the record the override flag is cleared (a direct write of is_override := false, or a File method that does it) - also on the `redo-stamp ran` side, which calls no set_changed: a target that was overridden, deleted and regenerated would otherwise stay `overridden` for good, File::deps() answers `none` for it and no change of its inputs is ever noticed")
+    prog = ctx.prog
+    from rules.C11 import override_clearers
+    R = anchors.record_new_state(prog)
+    rba = BA.of(R)
+    ren = rba.calls(r"std::fs::rename")
+    saves = rba.calls(r"state::File::save")
+    if not ren or not saves:
+        raise AnchorError("%s: rename / save of %s not located" % (rid, R.key))
+    clearers = override_clearers(ctx, prog)
+    clear = {bb for (bb, j, st) in field_writes(R, r"state::File\.is_override") if st["rv"]["k"] == "use" and (op_const(st["rv"]["op"]) or {}).get("bool") is False}
+    clear |= {i for i in rba.all_calls() if any(q in clearers for q in callee_paths(R.blocks[i]["term"]))}
+    eqs = common.cmp_const_switches(R, 0)
+    rvl = None
+    for (_, _, _, x) in eqs:
+        rvl = x
+    fam = common.status_family(R, common.int_root(R, rvl)) if rvl is not None else set()
+    # paths on which the status is still a success when the record is saved
+    fails = set(rba.calls(r"state::File::set_failed"))
+    pth = common.status_path_avoiding(R, fam, 0, ren[0], saves, avoid=frozenset(clear | fails)) if fam else rba.path([ren[0]], saves, avoid=frozenset(clear | fails), incl=True)
+    ctx.ob(rid, "%s|success=>override-flag-cleared" % R.key, pth is None and bool(clear), where=ctx.where(R, ren[0]),
+           detail="every successful build clears is_override before the record is saved" if pth is None and clear else
+           "a successful build can be saved with the override flag still set", witness=pth)
+
+
+# ------------------------------------------------------------------------------------------------
+# R10.15  redo itself never dies of SIGPIPE
+
+def sigpipe_default_only_in_job_children(ctx, rid):
+    ctx.rule(rid, "SIGPIPE is given back its default action only in the forked job children right before exec (the two closures handed to the jobserver); everywhere else redo keeps the Rust runtime's `ignore`: the builder's next write after the log reader went away is the `done` record inside record_new_state - after rename(tmp -> target), before the commit - and with the default action that write kills redo exactly in the window in which the database still holds the old stamp (every later run: `you modified it; skipping`)")
+    prog = ctx.prog
+    allowed = {cl.key for _, _, cl in anchors.fork_closures(prog)}
+    sites = []
+    for b in prog.bodies.values():
+        ba = BA.of(b)
+        for i in ba.calls(r"nix::sys::signal::(signal|sigaction)|libc::(signal|sigaction)"):
+            t = b.blocks[i]["term"]
+            txt = json_text(t["args"])
+            a0 = op_local(t["args"][0]) if t.get("args") else None
+            if a0 is not None:
+                for x in [a0] + list(ba.ref_chain(a0)):
+                    d = ba.single_def(x)
+                    if d and d[0] == "stmt":
+                        txt += json_text(d[3])
+            if "SIGPIPE" in txt or (op_const(t["args"][0]) or {}).get("int") == 13:
+                sites.append((b, i))
+    ctx.floor(rid, "SIGPIPE dispositions set", len(sites), 2)
+    bad = [(b, i) for (b, i) in sites if b.key not in allowed]
+    ctx.ob(rid, "SIGPIPE|default-action-only-in-job-children", not bad, where=ctx.where(bad[0][0], bad[0][1]) if bad else "",
+           detail="only the job children reset SIGPIPE" if not bad else "%s changes the disposition of SIGPIPE for a process that writes log records" % bad[0][0].key)
+
+
+# ------------------------------------------------------------------------------------------------
+# R5.19 / R7.16  "failed in this run" is a statement about failed_runid alone
+
+def is_failed_reads_only_the_failure_mark(ctx, rid):
+    ctx.rule(rid, "File::is_failed looks at failed_runid (and the current run id) only: set_failed itself flips is_generated off when the failed script left no file, so any further condition on the record (`only a generated file can have failed`) switches the refusal off for exactly the usual kind of failure, and the failing .do runs again for every further requester in the same run")
+    from core import rvalue_places, place_fields
+    prog = ctx.prog
+    b = prog.one(r"state::File::is_failed")
+    fields = set()
+    for blk in b.blocks:
+        for st in blk["stmts"]:
+            if st["s"] != "assign":
+                continue
+            for pl in rvalue_places(st["rv"]):
+                for f in place_fields(pl):
+                    if f.startswith("state::File."):
+                        fields.add(f.split(".")[-1])
+    calls = [q for i in BA.of(b).all_calls() for q in callee_paths(b.blocks[i]["term"]) if q.startswith("state::File::")]
+    ok = fields == {"failed_runid"} and not calls
+    ctx.ob(rid, "File::is_failed|reads-failed_runid-only", ok, where=b.span,
+           detail="decided by failed_runid against the current run" if ok else "also depends on %s" % sorted((fields - {"failed_runid"}) | set(calls)))
+
+
 _BORROW_CACHE = {}
 
 
@@ -2254,9 +2357,11 @@ def memo_after_failed_test(ctx, rid):
 # ------------------------------------------------------------------------------------------------
 
 TABLE = {
-    "C02": [("R2.7", every_candidate_leaves_an_edge), ("R2.10", add_dep_replaces_unconditionally),
+    "C02": [("R2.12", borrow("C01", "R1.3", None, "the caller's edges are written before the build: a dependency that fails is then still an edge, gets retried through the caller and makes it rebuild once it succeeds")),
+            ("R2.11", successful_build_clears_override), ("R2.7", every_candidate_leaves_an_edge), ("R2.10", add_dep_replaces_unconditionally),
             ("R2.8", borrow("C03", "R3.2", None, "a build wrongly taken for a stamped one never advances changed_runid: the target and its dependents then re-run on every later redo-ifchange"))],
-    "C13": [("R13.10", shebang_read_tolerates_any_bytes), ("R13.6", every_candidate_leaves_an_edge), ("R13.7", check_never_refreshes_stamps),
+    "C13": [("R13.11", borrow("C14", "R14.2", None, "a must-not-exist edge (the higher-priority .do candidates that were looked for and not found) is dirty exactly when the path exists now - whatever else is known about that path in this run: a rule created for one sibling must be noticed by all")),
+            ("R13.10", shebang_read_tolerates_any_bytes), ("R13.6", every_candidate_leaves_an_edge), ("R13.7", check_never_refreshes_stamps),
             ("R13.8", borrow("C02", "R2.3", r"^(add_dep\||sql-literals-found)", "a must-not-exist edge for a higher-priority .do candidate has to replace last build's row (and clear its deletion mark), or it is swept after the second build and a new candidate is never noticed"))],
     "C03": [("R3.14", unlocked_phases_are_conditional), ("R3.12", memo_after_failed_test), ("R3.13", stamped_mark_is_build_specific), ("R3.9", signal_death_is_failure), ("R3.10", uncertain_is_not_built_directly), ("R3.11", stamp_reads_to_eof)],
     "C05": [("R5.8", signal_death_is_failure),
@@ -2264,29 +2369,34 @@ TABLE = {
             ("R5.10", memo_after_failed_test), ("R5.12", callback_error_keeps_cause), ("R5.13", flags_exported_only_when_set),
             ("R5.11", decision_sees_finished_jobs),
             ("R5.14", borrow("C13", "R13.3", r"argv\[0\.\.2\]", "scripts run under `sh -e`: a failing redo-ifchange inside a .do stops the script and fails the target")),
-            ("R5.15", failed_marker_not_cleared_at_start), ("R5.17", set_failed_records_file_as_it_is), ("R5.18", every_failure_is_recorded)],
+            ("R5.15", failed_marker_not_cleared_at_start), ("R5.17", set_failed_records_file_as_it_is), ("R5.19", is_failed_reads_only_the_failure_mark), ("R5.18", every_failure_is_recorded)],
     "C04": [("R4.6", output_probed_with_lstat), ("R4.7", direct_modification_is_inequality), ("R4.8", stdout_amount_from_fstat),
             ("R4.9", borrow("C13", "R13.3", r"^[^|]*\|\$3=", "two targets that differ only in the matched extension must not share one temp output file: the second script's output would replace or destroy the first's")),
             ("R4.11", tmp_removal_copes_with_directory), ("R4.12", every_failure_is_recorded)],
-    "C11": [("R11.8", direct_modification_is_inequality), ("R11.11", foreign_file_not_recorded_as_ours),
+    "C11": [("R11.15", check_never_refreshes_stamps),
+            ("R11.14", successful_build_clears_override), ("R11.8", direct_modification_is_inequality), ("R11.11", foreign_file_not_recorded_as_ours),
             ("R11.9", borrow("C15", "R15.2", None, "the record consulted for `generated / override` must be the one of the file the kernel will resolve: a spelling cleaned before symlinks are resolved selects another record and a user's file is replaced"))],
     "C06": [("R6.9", verdict_only_under_lock), ("R6.10", lock_file_opened_once),
             ("R6.12", borrow("C15", "R15.2", None, "the lock id is the id of the record a spelling maps to: a relpath that skips symlink resolution (a lexical fast path) gives one file reached through a symlinked directory two records and two lock bytes, and two commands run its .do at the same time")),
             ("R6.11", borrow("C15", "R15.9", None, "the lock id is the id of the record the name maps to: a directory spelling that is not resolved (a lexical shortcut, or a directory that does not exist yet) gives the same file a second record and a second lock, and two commands run its .do at the same time"))],
-    "C07": [("R7.13", borrow("C14", "R14.3", None, "an always-target is rebuilt once per run however many dependents ask for it only if every redo-always re-stamps the shared //ALWAYS row: with the row left unstamped each further requester finds the target dirty again")),
+    "C07": [("R7.16", is_failed_reads_only_the_failure_mark),
+            ("R7.14", borrow("C05", "R5.4", None, "a target that failed in this run is refused on both ways to a job - the dirtiness callback of redo-ifchange and the builder's pass over targets that were locked: with either refusal gone a requester queued behind the failing job runs the .do a second time in the same run")), ("R7.15", borrow("C06", "R6.6", None, "REDO_UNLOCKED must not leak below the one process it is meant for: scripts that inherit it build without locks, and a target requested by two jobs is built twice")),
+            ("R7.13", borrow("C14", "R14.3", None, "an always-target is rebuilt once per run however many dependents ask for it only if every redo-always re-stamps the shared //ALWAYS row: with the row left unstamped each further requester finds the target dirty again")),
             ("R7.11", arguments_reach_builder_unfiltered), ("R7.12", unlocked_phases_are_conditional), ("R7.5", verdict_only_under_lock), ("R7.8", lock_file_opened_once),
             ("R7.10", borrow("C15", "R15.2", None, "two spellings of one target are folded by record: a relpath that skips symlink resolution gives the file a second record, and one run builds it twice")),
             ("R7.9", borrow("C15", "R15.9", None, "two spellings of one target on a command line (or from two dependents) are folded by record id: a spelling whose directory is not resolved gets a record of its own and the target is built twice in the run")),
             ("R7.6", borrow("C02", "R2.3", r"marked-edges-still-listed", "while a target is being rebuilt its marked edges are the only record of why it is dirty: a dependent evaluated by a parallel job must still see them")),
             ("R7.7", borrow("C13", "R13.3", r"^[^|]*\|\$3=", "two targets of one default.*.do that differ only in the matched extension must not share a temp output name when built in parallel"))],
     "C08": [("R8.10", cheat_pipe_only_for_j0), ("R8.13", setup_gets_the_validated_jobs_value)],
-    "C01": [("R1.9", check_never_refreshes_stamps), ("R1.14", stamped_mark_is_build_specific), ("R1.15", set_failed_records_file_as_it_is),
+    "C01": [("R1.17", borrow("C03", "R3.7", None, "REDO_NO_OOB kept alive below an out-of-band check changes what the redo-ifchange calls of the scripts down there do (they build at once and, in a careless edit, stop recording edges): a target rebuilt there must end up with the edges it declared")), ("R1.18", borrow("C06", "R6.3", None, "the record a job works from is read again under the lock: one read before another command built the target makes the builder take the fresh file for a manual edit and save a stale record over the new one - the target is a source from then on and later edits of its inputs are ignored")),
+            ("R1.9", check_never_refreshes_stamps), ("R1.14", stamped_mark_is_build_specific), ("R1.15", set_failed_records_file_as_it_is),
             ("R1.16", every_candidate_leaves_an_edge),
             ("R1.11", borrow("C15", "R15.2", None, "the builder records the new stamp on the record the requested spelling maps to, the .do's own redo-ifchange records its source edges on the record of $REDO_PWD/$REDO_TARGET: unless both spellings are resolved to one record the stamped record never sees a source change and redo-ifchange exits 0 with the target stale")),
             ("R1.12", borrow("C02", "R2.2", None, "the edges of the previous build are deleted only when the new result is recorded (second phase): deleted up front, a build killed before its .do re-declares them leaves a target with no reason to be dirty")),
             ("R1.13", borrow("C02", "R2.1", None, "first phase: old edges are only marked before the .do search and the fork")),
             ("R1.10", borrow("C02", "R2.3", r"marked-edges-still-listed", "after an interrupted rebuild the marked edges are the only reason the target is dirty"))],
-    "C14": [("R14.9", unlocked_phases_are_conditional), ("R14.8", add_dep_replaces_unconditionally),
+    "C14": [("R14.10", borrow("C06", "R6.6", None, "REDO_UNLOCKED must not leak to the scripts below redo-unlocked's second phase: their redo-ifchange / redo-ifcreate / redo-always calls then record nothing, and the ifcreate and always edges of everything rebuilt there are gone")),
+            ("R14.9", unlocked_phases_are_conditional), ("R14.8", add_dep_replaces_unconditionally),
             ("R14.7", borrow("C02", "R2.3", r"^(add_dep\||sql-literals-found)", "a re-declared ifcreate edge must replace last build's row and clear its deletion mark")),
             ("R14.6", borrow("C02", "R2.3", r"marked-edges-still-listed", "an ifcreate / always edge of an interrupted rebuild must still make the target dirty"))],
     "C09": [("R9.10", probe_forks_while_owning), ("R9.11", alarm_interrupts_blocking_read),
@@ -2299,9 +2409,9 @@ TABLE = {
             ("R18.12", follower_reads_after_probe), ("R18.13", parse_keeps_text_verbatim), ("R18.14", record_content_never_panics), ("R18.15", log_read_tolerates_any_bytes), ("R18.16", record_name_operand_is_the_argument), ("R18.17", record_written_in_one_piece)],
     "C15": [("R15.12", arguments_reach_builder_unfiltered), ("R15.7", key_never_bypasses_relpath), ("R15.8", relpath_is_componentwise)],
     "C10": [("R10.12", borrow("C04", "R4.4", r"tmp-name|same-tmp", "the stale-output removal before the fork must name the same file the script will be told to write ($3, beside the target): removing another path leaves the half-written output of a killed build in place, to be taken for this build's output")),
-            ("R10.8", rename_inside_result_transaction), ("R10.14", schema_created_inside_transaction), ("R10.13", tmp_removal_copes_with_directory), ("R10.10", interrupted_creation_is_recoverable), ("R10.11", failed_marker_not_cleared_at_start),
+            ("R10.8", rename_inside_result_transaction), ("R10.15", sigpipe_default_only_in_job_children), ("R10.14", schema_created_inside_transaction), ("R10.13", tmp_removal_copes_with_directory), ("R10.10", interrupted_creation_is_recoverable), ("R10.11", failed_marker_not_cleared_at_start),
             ("R10.9", borrow("C05", "R5.3", None, "a job that dies (non-zero or by signal) has its un-redeclared edges deleted by zap_deps2, so it must be marked failed in the same transaction or it looks clean after the kill"))],
-    "C12": [("R12.12", arguments_reach_builder_unfiltered), ("R12.9", every_modified_dep_is_descended), ("R12.10", only_immediate_exit_becomes_job_result),
+    "C12": [("R12.13", cycle_set_only_grows), ("R12.12", arguments_reach_builder_unfiltered), ("R12.9", every_modified_dep_is_descended), ("R12.10", only_immediate_exit_becomes_job_result),
             ("R12.11", borrow("C13", "R13.3", r"argv\[0\.\.2\]", "a .do on the cycle must stop at the failing redo-ifchange (`sh -e`), or the entry target exits 0 although the cycle was detected below"))],
     "C16": [("R16.11", no_stdin_read_under_transaction), ("R16.7", state_dir_creation_is_idempotent), ("R16.9", probe_forks_while_owning),
             ("R16.8", borrow("C06", "R6.3", None, "a record read before waiting for another command's lock predates that command's commit: using it afterwards writes stale state over the other command's result"))],
